@@ -66,18 +66,20 @@ CSS_PROFILES = [
     {'type': 'stylesheet', 'snippets': {'foo': 'bar:10', 'zz': 'zed:1.5|2'}, 'options': {'stylesheet.intUnit': 'mm', 'stylesheet.floatUnit': 'cm'}},
     {'type': 'stylesheet', 'syntax': 'stylus', 'options': {'stylesheet.shortHex': False}},
     {'type': 'stylesheet', 'context': {'name': 'padding'}},
+    {'type': 'stylesheet', 'snippets': {'mxw': 'max-width:100p', 'gp': 'gap:2x 1e'}, 'options': {'stylesheet.unitAliases': {'p': 'pt', 'x': 'XX', 'e': 'vw'}}},
+    {'type': 'stylesheet', 'snippets': {'mxw': 'max-width:100p', 'gp': 'gap:2x 1e'}},
 ]
 MARKUP_OK = ['a[k]+img', 'input[disabled]+br', 'label>span*4', 'x-p>a{http://x.y}', 'doc', 'ul>li.item$*3', 'div.b>.-e_m', 'p{$#}*', 'a', 'table>.r>.c', 'div.b_m>.-e+.--f', 'section#s>p.c{t}', 'vs>vr', 'ul>li*', 'x-a[k]{${lang}}',
              '.blk__el>.-sub', 'input+select', '(a>b)*3', 'h1{$#}']
 MARKUP_BAD = ['a[', 'ul>(', 'a{', 'x[a="b]', 'ul>li*3>(', '(a', '[a=', 'p{a ${1', 'a[b=c"]', 'div.b>.-e{', 'li*>(']
-CSS_OK = ['zom', 'p10', 'm1.5', 'foo', 'zz', 'lh2', 'bd', 'animic', 'foo+zz', 'w100e', 'm10x', 'c#fc0', 'p10+zom', 'q:a', 'bgp', 'fz1.',
+CSS_OK = ['mxw', 'gp', 'zom', 'p10', 'm1.5', 'foo', 'zz', 'lh2', 'bd', 'animic', 'foo+zz', 'w100e', 'm10x', 'c#fc0', 'p10+zom', 'q:a', 'bgp', 'fz1.',
           'posa', 'dib', 'tdn', 'ovh', 'bgcl', 'fwb', 'mten', 'm-a', 'pl-a', 'd:ib', 'poa', 'posx', 'zzz', 'foo2', 'c#f.5', 'bxsh', 'trf:r', '@kf', 'cm', 'lg']
 CSS_BAD = ['p(', 'm)', 'p${1', 'a(b', ')']
 
 
 CSS_OPTION_VALUES = {
     'stylesheet.intUnit': ['px', 'pt', 'q', ''], 'stylesheet.floatUnit': ['em', 'rem', '%'], 'stylesheet.unitless': [[], ['zoom', 'z-index', 'opacity']],
-    'stylesheet.unitAliases': [{'e': 'vw', 'x': 'XX'}, {}], 'stylesheet.shortHex': [True, False], 'stylesheet.between': [': ', ':', ' = '],
+    'stylesheet.unitAliases': [{'e': 'vw', 'x': 'XX'}, {}, {'p': 'pt', 'r': 'rad', 'x': 'ex', 'e': 'em'}], 'stylesheet.shortHex': [True, False], 'stylesheet.between': [': ', ':', ' = '],
     'stylesheet.after': [';', '', ' ;'], 'stylesheet.fuzzySearchMinScore': [0, 0.3, 0.5, 0.9], 'stylesheet.skipUnmatched': [True, False],
     'stylesheet.keywords': [['auto', 'inherit'], [], ['auto', 'inherit', 'unset', 'none', 'all']], 'stylesheet.json': [False, True],
     'output.format': [True, False], 'output.newline': ['\n', '\r\n'],
@@ -101,7 +103,8 @@ def rand_user(rng, kind):
         if rng.random() < 0.3:
             u['syntax'] = rng.choice(['scss', 'sass', 'stylus', 'less'])
         if rng.random() < 0.3:
-            u['snippets'] = rng.choice([{'foo': 'bar:10', 'zz': 'zed:1.5|2'}, {'posx': 'pos-x:1|2', 'p': 'pad:0'}, {'q': 'quux:a(1, 2)|b'}])
+            u['snippets'] = rng.choice([{'foo': 'bar:10', 'zz': 'zed:1.5|2'}, {'posx': 'pos-x:1|2', 'p': 'pad:0'}, {'q': 'quux:a(1, 2)|b'},
+                                        {'mxw': 'max-width:100p', 'gp': 'gap:2x 1e', 'foo': 'bar:3r|4p'}])
         if rng.random() < 0.2:
             u['context'] = {'name': rng.choice(['@@global', '@@section', '@@property', 'padding', 'display'])}
     else:
@@ -163,17 +166,26 @@ def gen_hostile_cache_history(rng):
         hot = ['m10', 'p5', 'zz', 'foo', 'm1.5', 'p10+m0', 'zom', 'w10']
         calls = [{'slot': rng.randrange(2), 'abbr': rng.choice(hot)} for _ in range(rng.randint(1, 5))]
         return {'slots': slots, 'calls': calls, 'probe': {'slot': rng.randrange(2), 'abbr': rng.choice(hot)}}
+    if r < 0.2:
+        # ONE user table whose defaults carry alias units, one cache, option tables that read those units differently
+        tbl = {'mxw': 'max-width:100p', 'gp': 'gap:2x 1e', 'foo': 'bar:3r|4p', 'zz': 'zed:1.5|2', 'bx': 'box:1 2p 3.5'}
+        o1, o2 = rng.sample([{}, {'stylesheet.unitAliases': {'p': 'pt', 'x': 'XX', 'e': 'vw', 'r': 'rad'}}, {'stylesheet.unitAliases': {}},
+                             {'stylesheet.intUnit': 'q', 'stylesheet.floatUnit': 'fr'}, {'stylesheet.unitAliases': {'p': 'pc'}, 'stylesheet.intUnit': 'mm'}], 2)
+        slots = [{'user': {'type': 'stylesheet', 'snippets': dict(tbl), 'options': dict(o)}, 'as_config': rng.random() < 0.3, 'cache': 'c0', 'raising_field_at': None} for o in (o1, o2)]
+        hot = ['mxw', 'gp', 'foo', 'mxw+gp', 'bx', 'zz', 'foo+bx']
+        calls = [{'slot': rng.randrange(2), 'abbr': rng.choice(hot)} for _ in range(rng.randint(1, 5))]
+        return {'slots': slots, 'calls': calls, 'probe': {'slot': rng.randrange(2), 'abbr': rng.choice(hot)}}
     if r < 0.3:
         # two snippet tables, one restricting scope, one cache
         sc = {'name': rng.choice(['@@section', '@@property', '@@global'])}
         t1, t2 = rng.sample([{'foo': 'bar:10', 'zz': 'zed:1.5|2'}, {'posx': 'pos-x:1|2', 'p': 'pad:0'}, {'zz': 'raw ${1} body', 'pos': 'vp-x:a|b'}, {}], 2)
         profs = [{'type': 'stylesheet', 'snippets': t1, 'context': dict(sc)}, {'type': 'stylesheet', 'snippets': t2, 'context': dict(sc)}]
     elif r < 0.6:
-        profs = rng.sample(CSS_PROFILES[:7], 2)
+        profs = rng.sample(CSS_PROFILES[:7] + CSS_PROFILES[8:], 2)
     else:
         profs = [rand_user(rng, 'stylesheet'), rand_user(rng, 'stylesheet')]
     slots = [{'user': copy.deepcopy(p), 'as_config': rng.random() < 0.3, 'cache': 'c0', 'raising_field_at': None} for p in profs]
-    hot = rng.sample(['zom', 'foo', 'zz', 'p10+zom', 'foo+zz', 'animic', 'm1.5', 'zz+zom', 'posa', 'dib', 'tdn', 'ovh', 'bgcl', 'fwb', 'mten', 'posx', 'zzz', 'm-a', 'pos', 'p', '@kf', 'cm'], 5)
+    hot = rng.sample(['mxw', 'gp', 'zom', 'foo', 'zz', 'p10+zom', 'foo+zz', 'animic', 'm1.5', 'zz+zom', 'posa', 'dib', 'tdn', 'ovh', 'bgcl', 'fwb', 'mten', 'posx', 'zzz', 'm-a', 'pos', 'p', '@kf', 'cm'], 5)
     calls = [{'slot': rng.randrange(2), 'abbr': rng.choice(hot)} for _ in range(rng.randint(1, 5))]
     return {'slots': slots, 'calls': calls, 'probe': {'slot': rng.randrange(2), 'abbr': rng.choice(hot)}}
 
